@@ -135,6 +135,17 @@ impl SlidingLogState {
     }
 }
 
+/// `Duration::from_secs_f64` panics on values it cannot represent. A wait that is
+/// too long to represent is "practically forever"; anything else (NaN, negative)
+/// is no wait at all.
+fn saturating_from_secs_f64(secs: f64) -> Duration {
+    Duration::try_from_secs_f64(secs).unwrap_or(if secs > 0.0 {
+        Duration::MAX
+    } else {
+        Duration::ZERO
+    })
+}
+
 /// Sliding window counter rate limiter state.
 ///
 /// Uses weighted averaging between current and previous buckets.
@@ -170,8 +181,7 @@ impl SlidingCounterState {
 
         // Calculate weighted count
         let elapsed = now.duration_since(self.bucket_start);
-        let elapsed_ratio = elapsed.as_secs_f64() / self.bucket_duration.as_secs_f64();
-        let elapsed_ratio = elapsed_ratio.clamp(0.0, 1.0);
+        let elapsed_ratio = self.elapsed_ratio(elapsed);
 
         // Weight: previous bucket contributes less as we progress through current bucket
         let previous_weight = 1.0 - elapsed_ratio;
@@ -195,6 +205,15 @@ impl SlidingCounterState {
         } else {
             Ok(time_until_slot)
         }
+    }
+
+    /// Fraction of the current bucket that has elapsed, in [0, 1]. A zero-length
+    /// bucket is always over (0/0 would be NaN).
+    fn elapsed_ratio(&self, elapsed: Duration) -> f64 {
+        if self.bucket_duration.is_zero() {
+            return 1.0;
+        }
+        (elapsed.as_secs_f64() / self.bucket_duration.as_secs_f64()).clamp(0.0, 1.0)
     }
 
     fn maybe_rotate_bucket(&mut self, now: Instant) {
@@ -236,7 +255,7 @@ impl SlidingCounterState {
         if previous == 0.0 {
             // No previous bucket contribution, need to wait for bucket rotation
             let remaining = self.bucket_duration.as_secs_f64() * (1.0 - current_ratio);
-            return Duration::from_secs_f64(remaining);
+            return saturating_from_secs_f64(remaining);
         }
 
         // weighted = previous * (1 - ratio) + current = limit - epsilon
@@ -251,18 +270,17 @@ impl SlidingCounterState {
         } else if target_ratio >= 1.0 {
             // Need to wait for bucket rotation
             let remaining = self.bucket_duration.as_secs_f64() * (1.0 - current_ratio);
-            Duration::from_secs_f64(remaining)
+            saturating_from_secs_f64(remaining)
         } else {
             let wait_ratio = target_ratio - current_ratio;
-            Duration::from_secs_f64(wait_ratio * self.bucket_duration.as_secs_f64())
+            saturating_from_secs_f64(wait_ratio * self.bucket_duration.as_secs_f64())
         }
     }
 
     fn available_permits(&self) -> usize {
         let now = Instant::now();
         let elapsed = now.duration_since(self.bucket_start);
-        let elapsed_ratio =
-            (elapsed.as_secs_f64() / self.bucket_duration.as_secs_f64()).clamp(0.0, 1.0);
+        let elapsed_ratio = self.elapsed_ratio(elapsed);
         let previous_weight = 1.0 - elapsed_ratio;
         let weighted_count =
             (self.previous_count as f64 * previous_weight) + self.current_count as f64;
